@@ -335,7 +335,64 @@ def fam_small_general(ctx, rng):
                     (float(pt[0]), float(pt[1])), ina, inb, not exp), dict(desc, result=[p_.to_array() for p_ in res])); return
 
 
-FAMILIES = [(fam_lattice, 220), (fam_lattice_all, 50), (fam_general, 140), (fam_small_general, 700)]
+def fam_long_edges(ctx, rng):
+    """site-scale operands: a long thin rectangle (edges of 2000..8000) and a second polygon with a feature a few tolerances away from
+    one of the long edges - a vertex 3..50 tolerances off the edge (not touching, not snapped), or a collinear overlap that starts
+    5..50 tolerances from the end of the long edge; mirrored, transposed, either operand order; judged at sample points"""
+    L = float(rng.choice([2000, 4000, 8000])); H = float(rng.choice([10, 20])); y0 = float(rng.choice([0, 10]))
+    R = [(0.0, y0), (L, y0), (L, y0 + H), (0.0, y0 + H)]
+    variant = rng.choice(['vertex_near_edge', 'vertex_near_edge', 'collinear_overlap'])
+    g = rng.choice([0.03, 0.05, 0.05, 0.2, 0.5])
+    if variant == 'vertex_near_edge':
+        xa = G.dy(L * rng.uniform(0.2, 0.8)); w = float(rng.choice([500, 1000])); hgt = float(rng.choice([5, 9]))
+        if rng.random() < 0.5:      # below the bottom edge, pointing up at it
+            T = [(xa, y0 - g), (xa - w, y0 - g - hgt), (xa + w, y0 - g - hgt)]
+        else:                       # above the top edge, pointing down at it
+            T = [(xa, y0 + H + g), (xa + w, y0 + H + g + hgt), (xa - w, y0 + H + g + hgt)]
+    else:
+        x1 = G.dy(L * rng.uniform(0.3, 0.7))
+        if rng.random() < 0.5:      # inside, sharing part of the top edge
+            T = [(g, y0 + H / 2), (x1, y0 + H / 2), (x1, y0 + H), (g, y0 + H)]
+        else:                       # outside, attached along part of the top edge
+            T = [(g, y0 + H), (x1, y0 + H), (x1, y0 + H + 5.0), (g, y0 + H + 5.0)]
+    la, lb = R, T
+    if rng.random() < 0.5: la, lb = [(y, x) for x, y in la][::-1], [(y, x) for x, y in lb][::-1]
+    if rng.random() < 0.5: la, lb = [(-x, y) for x, y in la][::-1], [(-x, y) for x, y in lb][::-1]
+    if rng.random() < 0.5: la = la[::-1]
+    if rng.random() < 0.5: lb = lb[::-1]
+    if rng.random() < 0.5: la, lb = lb, la
+    fa, fb = [X.fpt(p) for p in la], [X.fpt(p) for p in lb]
+    m = Fraction(10 * TOL) ** 2
+    xs = [p[0] for p in la + lb]; ys = [p[1] for p in la + lb]
+    pts = []
+    cands = [(rng.uniform(min(xs), max(xs)), rng.uniform(min(ys), max(ys))) for _ in range(60)]
+    for lp in (la, lb):
+        cx = sum(p[0] for p in lp) / len(lp); cy = sum(p[1] for p in lp) / len(lp)
+        cands += [(cx + rng.uniform(-1, 1), cy + rng.uniform(-1, 1)) for _ in range(6)]
+    for c in cands:
+        pt = (Fraction(G.dy(c[0], 8)), Fraction(G.dy(c[1], 8)))
+        if X.sqdist_to_boundary(fa, pt) >= m and X.sqdist_to_boundary(fb, pt) >= m:
+            pts.append((pt, X.winding_inside(fa, pt), X.winding_inside(fb, pt)))
+    a, b = poly(la), poly(lb)
+    ctx.count('long_edges', key=(variant, L, g), sample={'a': la, 'b': lb, 'variant': variant}, nontrivial=True)
+    for op in OPS:
+        desc = {'a': la, 'b': lb, 'op': op, 'variant': variant, 'gap': g}
+        try:
+            res = apply_op(op, a, b)
+        except Exception as e:
+            ctx.violation('long_edges.%s:raises' % op, '%r' % (e,), desc); return
+        loops = [[X.fpt(v) for v in p_.vertices] for p_ in res]
+        for pt, ina, inb in pts:
+            exp = {'union': ina or inb, 'intersect': ina and inb, 'difference': ina and not inb, 'xor': ina != inb}[op]
+            rs = [X.winding_inside(lp, pt) for lp in loops]
+            if any(r is None for r in rs):
+                continue
+            if (sum(1 for r in rs if r) % 2 == 1) != bool(exp):
+                ctx.violation('long_edges.%s:membership' % op, '%s: point %s: in A=%s in B=%s but the result says %s' % (
+                    variant, (float(pt[0]), float(pt[1])), ina, inb, not exp), dict(desc, result=[p_.to_array() for p_ in res])); return
+
+
+FAMILIES = [(fam_long_edges, 160), (fam_lattice, 220), (fam_lattice_all, 50), (fam_general, 140), (fam_small_general, 700)]
 
 
 def explore(ctx):
